@@ -120,6 +120,14 @@ _md_specials_pat = re.compile(r"^([-*+>]|#+)$")
 # Separate pattern to specifically find the numbered list cases for targeted escaping
 _md_numeral_pat = re.compile(r"^[0-9]+[.)]$")
 
+# Words that alone on a line are a thematic break or a setext heading underline
+# (`---`, `***`, `___`, `===`, `--`, `=`).
+_md_rule_pat = re.compile(r"^(-{2,}|=+|\*{3,}|_{3,})$")
+
+# Words that open a fenced code block at the start of a line. (A backtick fence cannot have
+# another backtick later in the word; such a word is a code span.)
+_md_fence_pat = re.compile(r"^(`{3,})[^`]*$|^(~{3,})")
+
 
 def markdown_escape_word(word: str) -> str:
     """
@@ -132,6 +140,17 @@ def markdown_escape_word(word: str) -> str:
         return word[:-1] + "\\" + word[-1]
     elif _md_specials_pat.match(word):
         return "\\" + word
+    elif _md_rule_pat.match(word):
+        # Escape every character so no emphasis delimiter run is left behind.
+        return "".join("\\" + c for c in word)
+    elif word.startswith(">"):
+        # A block quote marker needs no following space.
+        return "\\" + word
+    else:
+        fence_match = _md_fence_pat.match(word)
+        if fence_match:
+            run = fence_match.group(1) or fence_match.group(2)
+            return "".join("\\" + c for c in run) + word[len(run) :]
     return word
 
 
